@@ -103,7 +103,9 @@ impl Read for ScriptedReader {
             }
             Ev::Err(k) => {
                 self.calls.push(Call::Failed(buf.len(), k));
-                Err(std::io::Error::new(KINDS[k.min(KINDS.len() - 1)], "scripted"))
+                // every error instance is distinguishable: "fails with the LAST error" is about the
+                // error object, not only about its kind
+                Err(std::io::Error::new(KINDS[k.min(KINDS.len() - 1)], format!("scripted#{}", self.calls.len())))
             }
         }
     }
@@ -230,6 +232,18 @@ impl Exec for ReadNExec {
                     Ok(s) => Ok(s.slice().to_vec()),
                     Err(e) => Err(kind_index(e.kind())),
                 };
+                let mut instance_viol: Option<String> = None;
+                if let Err(e) = &res {
+                    let last_failed = reader.calls.iter().rposition(|c| matches!(c, Call::Failed(..))).map(|i| i + 1);
+                    let want = last_failed.map(|i| format!("scripted#{}", i));
+                    let got = e.get_ref().map(|inner| inner.to_string());
+                    if got != want {
+                        instance_viol = Some(format!(
+                            "C17 the error returned is {:?}, not the last error the reader reported ({:?})",
+                            got, want
+                        ));
+                    }
+                }
                 let reqs: Vec<usize> = reader
                     .calls
                     .iter()
@@ -251,6 +265,7 @@ impl Exec for ReadNExec {
                     self.arena.remaining()
                 ));
                 so.violations = oracle_c17(count, attempts, &reader.calls, &result);
+                so.violations.extend(instance_viol);
                 so.tags.push(match &result {
                     Ok(b) if b.is_empty() => "res_ok_empty".into(),
                     Ok(b) if b.len() == count => "res_ok_full".into(),
